@@ -278,4 +278,180 @@ Proof.
         -- apply (agree_with_then (fun _ : unit => LSkip) _ _ _ VDropped (Ext [255%N]) vrel); [reflexivity|].
            apply (handle_invalid_agree r b [b] p HeaderValue p); [lia|reflexivity].
 Qed.
+
+(* ---- the two small whitespace loops ---- *)
+Lemma skip_ws_peek_spec : forall f l t p,
+  length l < f ->
+  skip_ws_peek f (mkcur p t l) =
+  let (w, r) := span ws l in Done tt (mkcur p (rev w ++ t) r).
+Proof.
+  induction f as [|f IH]; intros l t p Hl; [lia|].
+  destruct l as [|b r]; [reflexivity|].
+  cbn [skip_ws_peek span]. unfold bind at 1. unfold peek. cbn [rest hd_error].
+  change (is_ws b) with (ws b). destruct (ws b) eqn:Ews; [|reflexivity].
+  unfold bind at 1. unfold next. cbn [rest pre tokrev].
+  rewrite IH by (cbn [length] in Hl; lia).
+  destruct (span ws r) as [w r']. cbn [rev]. rewrite <- app_assoc. reflexivity.
+Qed.
+
+Lemma after_name_ws_spec : forall f r b t p,
+  length r < f -> ws b = true ->
+  after_name_ws f b (mkcur p t r) =
+  let (w, r3) := span ws r in
+  match r3 with
+  | [] => Part
+  | c' :: r4 =>
+      if is 58 c' then Done None (mkcur (S (length w) + (length t + p)) [] r4)
+      else Done (Some c') (mkcur p (c' :: rev w ++ t) r4)
+  end.
+Proof.
+  induction f as [|f IH]; intros r b t p Hl Hw; [lia|].
+  cbn [after_name_ws]. change (is_ws b) with (ws b). rewrite Hw.
+  destruct r as [|b' r']; [reflexivity|].
+  unfold bind at 1. unfold next. cbn [rest pre tokrev span]. unfold COLON.
+  destruct (ws b') eqn:Ew'.
+  - destruct (ws_facts b' Ew') as (_ & _ & _ & _ & _ & E58 & _). rewrite E58.
+    rewrite IH by (try exact Ew'; cbn [length] in Hl; lia).
+    destruct (span ws r') as [w r3]. destruct r3 as [|c' r4]; [reflexivity|].
+    cbn [length rev]. destruct (is 58 c').
+    + f_equal. f_equal. lia.
+    + rewrite <- app_assoc. reflexivity.
+  - destruct (is 58 b') eqn:E58.
+    + unfold bind, slice, ret, commit. cbn [pre tokrev rest length]. f_equal.
+    + cbn [length] in Hl. destruct f as [|f']; [lia|].
+      cbn [after_name_ws]. change (is_ws b') with (ws b'). rewrite Ew'. reflexivity.
+Qed.
+
+(* ---- one header line ---- *)
+Definition hrel (h : hstep) (l : rline) : Prop :=
+  match h with
+  | HEnd => l = LEnd
+  | HContinue => l = LSkip
+  | HHeader n v => l = LHeader n (trim_value v) /\ exists o b, v = Sub o b
+  end.
+
+(* after an empty line the token (the line end itself) is left uncommitted *)
+Definition agree_h (o : out hstep) (r : rres rline) : Prop :=
+  match r with
+  | ROk b off l =>
+      exists a c', o = Done a c' /\ hrel a b /\ apos c' = off /\ rest c' = l /\
+                   (b <> LEnd -> tokrev c' = [])
+  | RPart => o = Part
+  | RErr e => o = Fail e
+  end.
+
+Lemma agree_rel_h (o : out hstep) r :
+  agree_rel hrel o r -> agree_h o r.
+Proof.
+  destruct r as [b off l| |e]; cbn [agree_rel agree_h]; auto.
+  intros [a [-> H]]. exists a, (mkcur off [] l). repeat split; auto.
+Qed.
+
+Lemma value_to_line name (m : P vres) c r :
+  agree_rel vrel (m c) r ->
+  agree_rel hrel
+    ((v <- m ;; match v with VDropped => ret HContinue | VValue v => ret (HHeader name v) end) c)
+    (rbind r (fun v o l => ROk (if dropped v then LSkip else LHeader name v) o l)).
+Proof.
+  intros H. unfold bind. destruct r as [s off l| |e]; cbn [agree_rel rbind] in *.
+  - destruct H as [v [-> Hv]]. destruct v as [|v0]; cbn [vrel] in Hv.
+    + subst s. eexists. split; [reflexivity|]. reflexivity.
+    + destruct Hv as [-> [o [b ->]]]. eexists. split; [reflexivity|]. cbn [hrel].
+      unfold trim_value. destruct (drop_while is_trim (rev' b)); cbn [dropped]; split; eauto.
+  - rewrite H. reflexivity.
+  - rewrite H. reflexivity.
+Qed.
+
+Lemma invalid_to_line (m : P unit) c r :
+  agree_with (fun _ : unit => LSkip) (m c) r ->
+  agree_rel hrel ((m ;;; ret HContinue) c) r.
+Proof.
+  intros H. unfold bind, agree_with in *. destruct r as [s off l| |e]; cbn [agree_rel] in *.
+  - destruct H as [v [-> Hv]]. subst s. eexists. split; reflexivity.
+  - rewrite H. reflexivity.
+  - rewrite H. reflexivity.
+Qed.
+
+Lemma header_line_agree : forall first l p,
+  length l < fuel -> bytes_ok l ->
+  agree_h (header_line E fuel hc first (mkcur p [] l)) (ref_header_line hc first p l).
+Proof.
+  intros first l p Hfu Hb.
+  destruct l as [|b r]; [reflexivity|].
+  apply bytes_ok_cons in Hb as [Hb0 Hbr]. cbn [length] in Hfu.
+  unfold header_line, ref_header_line.
+  unfold bind at 1. unfold next at 1. cbn [rest pre tokrev].
+  rewrite (ok_name E HE b Hb0). unfold CR, LF.
+  destruct (is 13 b) eqn:E13.
+  - destruct r as [|b2 r2]; [reflexivity|]. mrun.
+    destruct (is 10 b2) eqn:E10; mrun; [|reflexivity].
+    cbn [agree_h]. do 2 eexists. split; [reflexivity|]. cbn [hrel apos tokrev pre rest length].
+    repeat split; try lia. congruence.
+  - destruct (is 10 b) eqn:E10.
+    + mrun. cbn [agree_h]. do 2 eexists. split; [reflexivity|]. cbn [hrel apos tokrev pre rest length].
+      repeat split; try lia. congruence.
+    + destruct (tchar b) eqn:Et; cbn [negb].
+      2:{ (* not a name byte *)
+          change (is_ws b) with (ws b).
+          destruct (allow_space_before_first_header_name hc && first && ws b) eqn:Esp.
+          - apply agree_rel_h.
+            unfold bind at 1. rewrite skip_ws_peek_spec by lia.
+            apply andb_prop in Esp as [_ Ews]. cbn [span]. rewrite Ews.
+            destruct (span ws r) as [w r']. mrun. rewrite app_length, rev_length. cbn [length].
+            replace (length w + 1 + p) with (S (length w + p)) by lia.
+            eexists. split; [reflexivity|]. reflexivity.
+          - apply agree_rel_h. apply invalid_to_line.
+            apply (handle_invalid_agree r b [b] p HeaderName p); [lia|reflexivity]. }
+      (* a name *)
+      apply agree_rel_h.
+      unfold bind at 1.
+      rewrite (ok_s_name E HE fuel (mkcur p [b] r) Hbr ltac:(cbn [rest]; lia)). cbn [rest].
+      cbn [span]. rewrite Et. rewrite span_first_bad.
+      set (k := first_bad tchar r).
+      assert (Hk : k <= length r) by apply first_bad_le.
+      unfold adv. cbn [pre tokrev rest].
+      assert (Hsk : length (skipn k r) <= length r) by (rewrite skipn_length; lia).
+      assert (Hbs : bytes_ok (skipn k r)) by (apply bytes_ok_skipn; exact Hbr).
+      destruct (skipn k r) as [|c r2] eqn:Es; [reflexivity|].
+      cbn [length] in Hsk. apply bytes_ok_cons in Hbs as [Hc0 Hbr2].
+      unfold bind at 1. unfold next at 1. cbn [rest pre tokrev].
+      unfold bind at 1. unfold slice_skip at 1. cbn [tokrev drop pre rest]. unfold commit. cbn [tokrev pre rest length].
+      rewrite app_length, rev_length, firstn_length, Nat.min_l by exact Hk. cbn [length].
+      rewrite rev'_rev, rev_app_distr, rev_involutive. cbn [rev app].
+      replace (S (k + 1) + p) with (S (S k + p)) by lia.
+      replace (length (firstn k r)) with k by (rewrite firstn_length; lia).
+      unfold COLON.
+      destruct (is 58 c) eqn:E58.
+      * (* colon right after the name *)
+        unfold bind at 1. unfold ret at 1.
+        apply value_to_line.
+        apply (ws_after_colon_agree fuel r2 [] (S (S k + p))); try lia; auto.
+      * destruct (allow_spaces_after_header_name hc && ws c) eqn:Esa.
+        -- apply andb_prop in Esa as [Esa Ewc]. rewrite Esa.
+           unfold bind at 1. rewrite after_name_ws_spec by (try exact Ewc; lia).
+           cbn [span]. rewrite Ewc.
+           destruct (span ws r2) as [w r3] eqn:Ew.
+           assert (Hlen3 : length r2 = length w + length r3).
+           { pose proof (span_first_bad ws r2) as Hs. rewrite Ew in Hs. injection Hs as -> ->.
+             rewrite firstn_length, skipn_length. pose proof (first_bad_le ws r2). lia. }
+           destruct r3 as [|c' r4]; [reflexivity|]. cbn [length] in *.
+           destruct (is 58 c') eqn:E58'.
+           ++ apply value_to_line.
+              replace (S (length w) + (0 + S (S k + p))) with (length (@nil N) + S (S (length w) + (S k + p))) by (cbn [length]; lia).
+              apply (ws_after_colon_agree fuel r4 [] (S (S (length w) + (S k + p)))); try lia; auto.
+              pose proof (span_first_bad ws r2) as Hs. rewrite Ew in Hs. injection Hs as _ Hs.
+              assert (Hb3 : bytes_ok (c' :: r4)) by (rewrite Hs; apply bytes_ok_skipn; exact Hbr2).
+              apply bytes_ok_cons in Hb3. tauto.
+           ++ apply invalid_to_line.
+              apply (handle_invalid_agree r4 c' (c' :: rev w ++ []) (S (S k + p)) HeaderName); [lia|].
+              cbn [length]. rewrite app_nil_r, rev_length. lia.
+        -- assert (Esa' : (if allow_spaces_after_header_name hc then after_name_ws fuel c else ret (Some c))
+                           (mkcur (S (S k + p)) [] r2) = Done (Some c) (mkcur (S (S k + p)) [] r2)).
+           { destruct (allow_spaces_after_header_name hc); [|reflexivity].
+             cbn [andb] in Esa. destruct fuel as [|f']; [lia|]. cbn [after_name_ws].
+             change (is_ws c) with (ws c). rewrite Esa. reflexivity. }
+           unfold bind at 1. rewrite Esa'.
+           apply invalid_to_line.
+           apply (handle_invalid_agree r2 c [] (S (S k + p)) HeaderName); [lia|reflexivity].
+Qed.
 End WithEnv.
